@@ -5,6 +5,7 @@ package main
 import (
 	"bufio"
 	"encoding/json"
+	"fmt"
 	"os"
 	"path/filepath"
 	"strings"
@@ -49,6 +50,20 @@ type tok struct {
 	spm  *model.SentencePieceModel
 	v    *model.Vocabulary
 	n    int
+	pre  string
+}
+
+// fresh builds a NEW tokenizer object over a NEW Vocabulary struct (same token/merge slices, no shared lazily built
+// state): what a first call on a just-constructed tokenizer answers
+func (t *tok) fresh() model.TextProcessor {
+	v := &model.Vocabulary{Values: t.v.Values, Types: t.v.Types, Scores: t.v.Scores, Merges: t.v.Merges,
+		BOS: t.v.BOS, EOS: t.v.EOS, EOT: t.v.EOT, AddBOS: t.v.AddBOS, AddEOS: t.v.AddEOS, AddEOT: t.v.AddEOT}
+	if t.kind == "bpe" {
+		x := model.NewBytePairEncoding(t.pre, v)
+		return &x
+	}
+	x := model.NewSentencePieceModel(v)
+	return &x
 }
 
 var toks = map[string]*tok{}
@@ -139,7 +154,7 @@ func main() {
 				pre = p
 			}
 			bpe := model.NewBytePairEncoding(pre, v)
-			toks[c["name"].(string)] = &tok{kind: "bpe", bpe: &bpe, v: v, n: len(v.Values)}
+			toks[c["name"].(string)] = &tok{kind: "bpe", bpe: &bpe, v: v, n: len(v.Values), pre: pre}
 			return map[string]any{"ok": true, "n": len(v.Values), "merges": len(v.Merges), "specials": hx.HexList(v.SpecialVocabulary())}
 		case "vocab":
 			v := &model.Vocabulary{
@@ -158,12 +173,69 @@ func main() {
 				}
 				bpe := model.NewBytePairEncoding(pre, v)
 				t.bpe = &bpe
+				t.pre = pre
 			} else {
 				spm := model.NewSentencePieceModel(v)
 				t.spm = &spm
 			}
 			toks[c["name"].(string)] = t
 			return map[string]any{"ok": true, "n": len(v.Values), "specials": hx.HexList(v.SpecialVocabulary())}
+		case "seq":
+			// a sequence of Encode calls on ONE long-lived tokenizer object; every call is compared with the same call on
+			// a fresh tokenizer (no state may leak from one call into the next)
+			t := toks[c["vocab"].(string)]
+			if t == nil {
+				return map[string]any{"harness_error": "unknown vocab"}
+			}
+			var live model.TextProcessor
+			if b(c["new_live"]) {
+				live = t.fresh()
+			} else if t.kind == "bpe" {
+				live = t.bpe
+			} else {
+				live = t.spm
+			}
+			steps := []map[string]any{}
+			for _, text := range hx.UnhexList(c["texts"]) {
+				st := map[string]any{}
+				ids, err := live.Encode(text, b(c["add_special"]))
+				if err != nil {
+					st["enc_err"] = err.Error()
+				}
+				fids, ferr := t.fresh().Encode(text, b(c["add_special"]))
+				if ferr != nil {
+					st["fresh_err"] = ferr.Error()
+				}
+				same := len(ids) == len(fids)
+				for i := 0; same && i < len(ids); i++ {
+					same = ids[i] == fids[i]
+				}
+				if ids == nil {
+					ids = []int32{}
+				}
+				if fids == nil {
+					fids = []int32{}
+				}
+				st["same"] = same
+				st["ids"] = ids
+				if !same {
+					st["fresh"] = fids
+				}
+				func() {
+					defer func() {
+						if r := recover(); r != nil {
+							st["dec_panic"] = fmt.Sprint(r)
+						}
+					}()
+					if d, err := live.Decode(ids); err == nil {
+						st["dec"] = hx.Hex(d)
+					} else {
+						st["dec_err"] = err.Error()
+					}
+				}()
+				steps = append(steps, st)
+			}
+			return map[string]any{"steps": steps, "n": t.n}
 		case "sleep":
 			// idle period (the tokenizer must behave the same after it)
 			time.Sleep(time.Duration(hx.Int(c["ms"])) * time.Millisecond)
@@ -177,9 +249,9 @@ func main() {
 			text := hx.Unhex(c["text"])
 			var tp model.TextProcessor
 			if t.kind == "bpe" {
-				tp = *t.bpe
+				tp = t.bpe
 			} else {
-				tp = *t.spm
+				tp = t.spm
 			}
 			t0 := time.Now()
 			out := map[string]any{"text_len": len(text)}
@@ -293,7 +365,7 @@ func main() {
 			var tp model.TextProcessor
 			out := map[string]any{}
 			if t.kind == "bpe" {
-				tp = *t.bpe
+				tp = t.bpe
 				splits := [][]string{}
 				for _, f := range hx.UnhexList(c["frags"]) {
 					splits = append(splits, hx.HexList(t.bpe.VerifSplit(f)))
@@ -309,7 +381,7 @@ func main() {
 				}
 				out["classes"] = cls
 			} else {
-				tp = *t.spm
+				tp = t.spm
 			}
 			ids, err := tp.Encode(text, b(c["add_special"]))
 			if err != nil {
@@ -342,9 +414,9 @@ func main() {
 			}
 			var tp model.TextProcessor
 			if t.kind == "bpe" {
-				tp = *t.bpe
+				tp = t.bpe
 			} else {
-				tp = *t.spm
+				tp = t.spm
 			}
 			return hx.Guard(func() any {
 				s, err := tp.Decode(i32s(c["ids"]))
